@@ -229,11 +229,17 @@ func parseReloadEps(s string) ([]polDecl, bool) {
 	}
 	var out []polDecl
 	for i, it := range strings.Split(s, ";") {
-		f := strings.SplitN(it, "@", 2)
-		if len(f) != 2 {
+		f := strings.Split(it, "@")
+		d := polDecl{name: "p" + itoa(i+1), diag: []bool{true}}
+		switch len(f) {
+		case 2:
+		case 4:
+			d.rem, d.diag = parseFlags(f[2]), parseFlags(f[3])
+		default:
 			return nil, false
 		}
-		out = append(out, polDecl{name: "p" + itoa(i+1), method: proto.Dec(f[0]), url: proto.Dec(f[1]), diag: []bool{true}})
+		d.method, d.url = proto.Dec(f[0]), proto.Dec(f[1])
+		out = append(out, d)
 	}
 	return out, true
 }
@@ -254,7 +260,7 @@ func fmtRequest(req *config.HAProxyEndpointsRequest) string {
 	return "ma=" + ma + " n=" + itoa(len(encs)) + " eps=" + l
 }
 
-func (w *reloadWorld) reload(glob bool, eps []polDecl, o *proto.Out) string {
+func (w *reloadWorld) reload(glob bool, eps []polDecl, immediately bool, o *proto.Out) string {
 	pc := &sharedConfig.PoliciesConfig{}
 	if glob {
 		pc.Global.Diagnosis = []sharedConfig.Diagnosis{{Name: "g", Enabled: true}}
@@ -267,7 +273,7 @@ func (w *reloadWorld) reload(glob bool, eps []polDecl, o *proto.Out) string {
 		o.Count("L4-reload-rejected")
 		return "err"
 	}
-	if err := w.acc.UpdatePoliciesData(pd, false); err != nil {
+	if err := w.acc.UpdatePoliciesData(pd, immediately); err != nil {
 		w.reloads++
 		w.settleRegistrations()
 		if strings.Contains(err.Error(), "failed to initialize HAProxy endpoints") {
